@@ -976,7 +976,7 @@ pub fn check_case(sh: &mut Shard, cs: &Case, verbose: bool) {
         // scaling by a small integer about the true origin: x -> k·x (exactly representable)
         {
             let k = cs.kint;
-            let lk = Lat { ox: lat.ox * k, oy: lat.oy * k, sh: lat.sh };
+            let lk = Lat { ox: lat.ox * k, oy: lat.oy * k, sh: lat.sh, shear: 0 };
             let gk = g.map(&|q| (q.0 * k, q.1 * k));
             let gg = to_geo_c06(&gk, &lk, cs.raw_tri);
             sh.eval(1);
@@ -1639,8 +1639,8 @@ pub fn run(ctx: &Ctx, sh: &mut Shard) {
 pub fn replay(v: &Value, sh: &mut Shard) {
     let g = IG::from_json(&v["g"]).expect("g");
     let lat = Lat::from_json(&v["lat"]);
-    let lat_t = if v.get("lat_t").is_some() { Lat::from_json(&v["lat_t"]) } else { Lat { ox: lat.ox + 1000, oy: lat.oy - 1000, sh: lat.sh } };
-    let lat_s = if v.get("lat_s").is_some() { Lat::from_json(&v["lat_s"]) } else { Lat { ox: lat.ox, oy: lat.oy, sh: lat.sh + 3 } };
+    let lat_t = if v.get("lat_t").is_some() { Lat::from_json(&v["lat_t"]) } else { Lat { ox: lat.ox + 1000, oy: lat.oy - 1000, sh: lat.sh, shear: 0 } };
+    let lat_s = if v.get("lat_s").is_some() { Lat::from_json(&v["lat_s"]) } else { Lat { ox: lat.ox, oy: lat.oy, sh: lat.sh + 3, shear: 0 } };
     let kint = v["kint"].as_i64().unwrap_or(3);
     let raw_tri = v["raw_triangles"].as_bool().unwrap_or(false);
     let cs = Case { stratum: "replay", raw_tri, g, lat, lat_t, lat_s, kint };
